@@ -250,6 +250,96 @@ def gen_tmpl_model(rng):
     return "P:0:%d:%d:%s|" % (NOLIM, maxcache, ",".join(ents)) + ";".join(interleave(rng, qs, rng.choice([0, 2, 4, 8]), tail))
 
 
+def collision_family(rng, tag):
+    """shapes {n1:T x c1, n2:T x c2 [, n3:T x c3]} with c1 + 2*c2 [+ 3*c3] constant: all have the same
+    TemplateHashCode64 (= sum_k k*(H(name_k) + count_k*type_k)) but different structure"""
+    k = rng.choice([2, 2, 3])
+    names = ["%s%d" % (tag, j) for j in range(k)]
+    ty = rng.choice(["i", "i", "s"])
+    S = rng.choice([7, 9, 11]) if k == 2 else rng.choice([10, 12, 14])
+    shapes = []
+    if k == 2:
+        for c2 in range(1, S // 2 + 1):
+            c1 = S - 2 * c2
+            if c1 >= 1:
+                shapes.append([(names[0], ty, c1), (names[1], ty, c2)])
+    else:
+        for c3 in range(1, S // 3 + 1):
+            for c2 in range(1, (S - 3 * c3) // 2 + 1):
+                c1 = S - 3 * c3 - 2 * c2
+                if c1 >= 1:
+                    shapes.append([(names[0], ty, c1), (names[1], ty, c2), (names[2], ty, c3)])
+    rng.shuffle(shapes)
+    return shapes[:rng.choice([2, 3, 4])]
+
+
+def msg_of_shape(rng, sh, what=None):
+    fields = []
+    for (nm, ty, cnt) in sh:
+        if ty == "i":
+            fields.append(f_i32(nm, [rng.randint(-9, 99) for _ in range(cnt)]))
+        elif ty == "s":
+            fields.append(f_str(nm, [bytes(rng.choice(b"abcxyz") for _ in range(rng.randint(0, 4))) for _ in range(cnt)]))
+        else:
+            fields.append(f_raw(nm, [bytes(rng.randrange(256) for _ in range(rng.randint(1, 6))) for _ in range(cnt)]))
+    return flat_msg(rng.choice([1, 2, 3]) if what is None else what, fields)
+
+
+def gen_tmpl_pressure(rng, enc=0, model=True):
+    """templating gateway under LRU-cache pressure: byte budgets with room for 1, 2 or 3 templates, families of shapes
+    whose template hashes collide, fresh shapes that force trims, re-use of older shapes -- the situations in which the
+    two caches only stay usable if they agree on contents AND order.  Corresponded with the Coq model (cache keys in LRU
+    order and byte tally of both ends after every call) when the describe pre-pass is available, oracle-only otherwise."""
+    fams = [collision_family(rng, "abcdefgh"[j]) for j in range(rng.choice([1, 2, 2, 3]))]
+    fresh = [[("%s%d" % ("uvwxyz"[j], q), rng.choice(["i", "i", "s", "r"]), rng.choice([1, 2, 3])) for q in range(rng.choice([1, 2]))]
+             for j in range(rng.choice([1, 2, 3, 4]))]
+    pool = [sh for f in fams for sh in f] + fresh
+    seq = []
+    # the critical pattern, possibly several times: X, (others), X' colliding with X while X is not at the front,
+    # a new shape forcing a trim, X (or X') again
+    for _ in range(rng.choice([1, 1, 2, 3])):
+        fam = rng.choice(fams)
+        x, x2 = rng.sample(fam, 2) if len(fam) >= 2 else (fam[0], fam[0])
+        seq.append(x)
+        seq += [rng.choice(pool) for _ in range(rng.choice([1, 1, 2]))]
+        seq.append(x2)
+        seq += [rng.choice(fresh + pool) for _ in range(rng.choice([1, 1, 2, 3]))]
+        seq.append(rng.choice([x, x, x2]))
+        seq += [rng.choice(pool) for _ in range(rng.choice([0, 1, 2]))]
+    # random walk with a bias towards recently used shapes
+    for _ in range(rng.choice([0, 3, 6])):
+        seq.append(rng.choice(seq[-4:] + pool))
+    bodies = []
+    for sh in seq:
+        bodies.append(flat_msg(rng.choice([0, 7])) if rng.random() < 0.08 else msg_of_shape(rng, sh))
+    ents = describe_msgs(bodies) if (model and enc == 0) else None
+    # budget: room for k templates of the sizes actually in play (a template of int32/string fields flattens to about
+    # the size of the Message's own structure; take the real sizes from the describe pass when we have them)
+    if ents is not None:
+        sizes = sorted(set(int(e.split("/")[3]) for e in ents if e.split("/")[0] == "0"))
+    else:
+        sizes = sorted(set(len(b) for b in bodies if len(b) > 12))
+    sizes = sizes or [56]
+    k = rng.choice([1, 2, 2, 2, 3, 3])
+    base = rng.choice([sizes[0], sizes[-1], sizes[len(sizes) // 2]])
+    maxcache = max(1, k * base + rng.choice([-1, 0, 0, 1, base // 2]))
+    qs = ["q:" + hexs(b) for b in bodies]
+    # mostly: each Message goes all the way through before the next is queued (so that the n-th decision of the
+    # sender meets the n-th state of the receiver's cache), sometimes fully interleaved
+    if rng.random() < 0.6:
+        ops = []
+        for q in qs:
+            ops.append(q)
+            if rng.random() < 0.8:
+                ops += ["o:%d:%s" % (NOLIM, ",".join(map(str, script(rng, 6)))), "i:%d:%s" % (NOLIM, ",".join(map(str, script(rng, 6))))]
+        ops += drain(rng, 3)
+    else:
+        ops = interleave(rng, qs, rng.choice([0, 4, 8]), drain(rng, 3, rng.choice([0, 0, 30])))
+    if ents is not None:
+        return "P:0:%d:%d:%s|" % (NOLIM, maxcache, ",".join(ents)) + ";".join(ops)
+    return "P:%d:%d:%d|" % (enc, NOLIM, maxcache) + ";".join(ops)
+
+
 def simple_body(rng):
     """Messages within the repertoire the C mini/micro codecs and the C++ one share"""
     r = rng.random()
@@ -482,6 +572,16 @@ def directed():
         wb = body_of_size(_r.Random(sz), sz - 8)
         for whead in ("WC", "WS"):
             out.append("%s|q:%s;o:%s:%s;i:%s:%s;i:%s:%s" % (whead, hexs(wb), ALL, ",".join([ALL] * 4), ALL, ",".join(["7"] * 50), ALL, ",".join([ALL] * 20)))
+    # templating gateway, cache budget = two templates (each 56 bytes): A, B, A' (collides with A, sent plain, must NOT touch
+    # the LRU order on either end), C (forces a trim: both ends must evict the same template), then A and B again
+    tA = flat_msg(1, [f_i32("a", [1, 2, 3]), f_i32("b", [4])])
+    tA2 = flat_msg(1, [f_i32("a", [5]), f_i32("b", [6, 7])])
+    tB = flat_msg(2, [f_i32("c", [1, 2, 3]), f_i32("d", [4])])
+    tC = flat_msg(3, [f_i32("e", [1, 2, 3]), f_i32("f", [4])])
+    for budget in (56, 111, 112, 120, 167, 168):
+        for seqm in ((tA, tB, tA2, tC, tA, tB, tA2), (tA, tB, tC, tA2, tB, tA), (tA2, tB, tA, tC, tA2, tA, tB)):
+            out.append("P:0:%s:%d|%s;o:%s:%s;i:%s:%s" % (ALL, budget, ";".join("q:" + hexs(m) for m in seqm), ALL, ",".join([ALL] * 10), ALL, ",".join([ALL] * 20)))
+            out.append("P:0:%s:%d|%s" % (ALL, budget, ";".join("q:%s;o:%s:%s;i:%s:%s" % (hexs(m), ALL, ",".join([ALL] * 3), ALL, ",".join(["7"] * 30)) for m in seqm)))
     # packet mode: one text Message, two lines, sent as one packet (PlainTextMessageIOGateway.cpp 28-68)
     out.append("KT:0d0a|q:6162,63;o:%s:1,1;i:%s:1,1" % (ALL, ALL))
     # maxIncoming exactly at / below the body size
@@ -574,6 +674,10 @@ class CHECK(vlib.Check):
             c = gen_tmpl_model(rng)
             if c is not None:
                 out.append(("templating", c))
+        for j in range(250 if tier == "quick" else 2500):
+            out.append(("templating-pressure", gen_tmpl_pressure(rng)))
+            if j % 5 == 0:
+                out.append(("templating-pressure-oracle", gen_tmpl_pressure(rng, enc=rng.choice([0, 1, 6, 9]), model=False)))
         for j in range(10 if tier == "quick" else 100):
             for head in ("MC", "CM", "UC", "CU"):
                 out.append(("c-gateways-oracle", gen_c_gateway(rng, head)))
